@@ -1001,11 +1001,13 @@ func gatherSecuritySchemes(securitySchemes map[string]spec.SecurityScheme, appNa
 		scopes := make([]string, 0, len(req.Scopes))
 		genScopes := make([]GenSecurityScope, 0, len(req.Scopes))
 		if isOAuth2 {
-			for k, v := range req.Scopes {
+			for k := range req.Scopes {
 				scopes = append(scopes, k)
-				genScopes = append(genScopes, GenSecurityScope{Name: k, Description: v})
 			}
 			sort.Strings(scopes)
+			for _, k := range scopes {
+				genScopes = append(genScopes, GenSecurityScope{Name: k, Description: req.Scopes[k]})
+			}
 		}
 
 		security = append(security, GenSecurityScheme{
@@ -1040,11 +1042,16 @@ func gatherSecuritySchemes(securitySchemes map[string]spec.SecurityScheme, appNa
 // or an operation, without any modification. This is used to generate documentation.
 func securityRequirements(orig []map[string][]string) (result []analysis.SecurityRequirement) {
 	for _, r := range orig {
-		for k, v := range r {
-			result = append(result, analysis.SecurityRequirement{Name: k, Scopes: v})
+		names := make([]string, 0, len(r))
+		for k := range r {
+			names = append(names, k)
+		}
+		// stable generation: the schemes of one requirement in name order
+		sort.Strings(names)
+		for _, k := range names {
+			result = append(result, analysis.SecurityRequirement{Name: k, Scopes: r[k]})
 		}
 	}
-	// TODO(fred): sort this for stable generation
 	return
 }
 
